@@ -115,6 +115,10 @@ class Emitter:
             return f"ENV.obj({self.site()})"
         if op == "next":
             return f"next({x[1]}, -1)"
+        if op == "lamd":
+            # (lambda _q=(x := e): _q)(): a default value is evaluated by the enclosing function --
+            # the assignment expression binds *its* x
+            return f"(lambda _q={self.e(['walrus', x[1], x[2]])}: _q)()"
         if op == "lamw":
             # (lambda _q: (y := e))(0): the assignment expression binds the *lambda's* y, not the
             # enclosing function's -- never traced
@@ -285,7 +289,15 @@ class Emitter:
             self.w(f"{s[1]}.{s[2]} += {self.e(s[3])}")
         elif op == "ann":
             x, ann, ex = s[1], s[2], s[3]
-            if ex is None:
+            if isinstance(x, list):
+                # o.n: ann [= e] -- no variable is declared; without a value nothing is stored
+                name = f"{x[1]}.{x[2]}"
+                if ex is None:
+                    self.w(f"{name}: {ann}")
+                else:
+                    v = self.e(ex)
+                    self.w(f"{name}: {ann} = T.b(_A, {name!r}, {v})" if T else f"{name}: {ann} = {v}")
+            elif ex is None:
                 self.w(f"{x}: {ann}")
                 if T:
                     self.w(f"{x} = T.decl(_A, {x!r})")
@@ -355,6 +367,20 @@ class Emitter:
             if T and asn:
                 pre = lambda: self.rebinds([asn])
             self.block(head + ":", s[2], pre)
+        elif op == "with2":
+            # with cm() as a, cm() as b:  is  with cm() as a: with cm() as b:  -- a is bound (and
+            # reported) before the second manager is even created
+            a, b = s[1], s[2]
+            h1 = f"with ENV.cm({self.site()}) as {a}"
+            h2 = f"ENV.cm({self.site()}) as {b}"
+            if T:
+                self.w(h1 + ":")
+                self.ind += 1
+                self.rebinds([a])
+                self.block("with " + h2 + ":", s[3], lambda: self.rebinds([b]))
+                self.ind -= 1
+            else:
+                self.block(h1 + ", " + h2 + ":", s[3])
         elif op == "import":
             mod, asn = s[1], s[2]
             self.w(f"import {mod}" + (f" as {asn}" if asn else ""))
@@ -371,6 +397,13 @@ class Emitter:
             self.ind += 1
             self.w(f"_w = {self.e(s[2])}")
             self.w("return _w")
+            self.ind -= 1
+        elif op == "adef":
+            # nested coroutine function (never called): binds its name like a nested def; its
+            # default value is evaluated here
+            self.w(f"async def {s[1]}(_z={self.e(s[2])}):")
+            self.ind += 1
+            self.w("return _z")
             self.ind -= 1
         elif op == "nested_fn":
             # a full (traceable, probe-able) actor function defined inside this one
@@ -715,7 +748,7 @@ def bound_names(fn):
     def ex(x):
         if not isinstance(x, list) or not x:
             return
-        if x[0] == "walrus":
+        if x[0] in ("walrus", "lamd"):
             add(x[1], "walrus")
             ex(x[2])
         elif x[0] in ("add",):
@@ -751,9 +784,12 @@ def bound_names(fn):
             add(s[1], "aug")
             ex(s[2])
         elif op == "ann":
-            add(s[1], "ann" if s[3] is not None else "decl")
+            if isinstance(s[1], str):
+                add(s[1], "ann" if s[3] is not None else "decl")
             if s[3] is not None:
                 ex(s[3])
+        elif op == "adef":
+            ex(s[2])
         elif op in ("if",):
             for b in s[1:3]:
                 for q in b or []:
@@ -787,6 +823,11 @@ def bound_names(fn):
             if s[1]:
                 add(s[1], "with")
             for q in s[2]:
+                st(q)
+        elif op == "with2":
+            add(s[1], "with")
+            add(s[2], "with")
+            for q in s[3]:
                 st(q)
         elif op == "import":
             add(s[2] or s[1].split(".")[0], "import")
